@@ -146,6 +146,7 @@ def r2_r3(ctx) -> None:
         ctx.ob("C19-R3", "add_plugin_to_registry/dot-test-on-original-key", only_param, add, dot,
                "the '.' test must examine the key as given by the caller (before any rebinding)")
     n_short = n_full = 0
+    ident_stores = []
     for t, s in st:
         if dot is not None:
             ctx.ob("C19-R3", f"add_plugin_to_registry/dot-guard-dominates:{norm(t.slice)[:40]}", cfg.dominates(dot, s), add, s,
@@ -168,6 +169,8 @@ def r2_r3(ctx) -> None:
             ctx.ob("C19-R2", "add_plugin_to_registry/full-name-key", True, add, s,
                    "store keyed by a name that starts with full_plugin_name(plugin)")
             n_full += 1
+            if a and a[0] == "fstring" and len(a[1]) >= 2:
+                ident_stores.append(s)
             continue
         if isinstance(k, ast.Name) and any(d.kind == "param" and d.var == key_p for d in fl.reaching(k.id, s)):
             n_short += 1
@@ -177,8 +180,8 @@ def r2_r3(ctx) -> None:
                      and isinstance(n.test.left, ast.Name) and n.test.left.id == k.id
                      and lib.chain_text(n.test.comparators[0]) == reg_p]
             tests = [n for n in tests if all(d.kind == "param" for d in fl.reaching(k.id, n))]
-            rebinds = [d.stmt for d in fl.defs_of(k.id) if d.kind == "assign"
-                       and norm(d.value) == f"full_plugin_name({plugin_p})"]
+            full_term = Poly.atom(("call", "glotaran.plugin_system.base_registry.full_plugin_name", (Poly.atom(("name", plugin_p)).key(),)))
+            rebinds = [d.stmt for d in fl.defs_of(k.id) if d.kind == "assign" and fl.term(d.value, d.node) == full_term]
             ok = False
             trace = []
             for g in tests:
@@ -207,6 +210,11 @@ def r2_r3(ctx) -> None:
             continue
         ctx.ob("C19-R2", "add_plugin_to_registry/unknown-key", False, add, s,
                "a registry store must be keyed either by the caller's (absent) short key or by the plugin's full name")
+    unavoidable = bool(ident_stores) and not cfg.exists_path(cfg.entry, cfg.exit, avoid=ident_stores, exc=False)
+    ctx.ob("C19-R2", "add_plugin_to_registry/full-name-store-on-every-path", unavoidable, add, ident_stores[0] if ident_stores else add.node,
+           "every registration - also one whose short name is already taken - stores the plugin under "
+           "`<full name><instance identifier>`, the key under which that instance stays retrievable",
+           construct=lib.short(ident_stores[0]) if ident_stores else "def add_plugin_to_registry")
     ctx.ob("C19-R2", "add_plugin_to_registry/stores-short-and-full", n_short >= 1 and n_full >= 1, add, add.node,
            "a registration stores the plugin under its full name (always reachable) and under the short key",
            construct="def add_plugin_to_registry")
